@@ -1,6 +1,7 @@
 """C15 -- non-blocking calls never block; poll descriptors mirror readiness."""
 from collections import defaultdict
 
+from .. import guards as G
 from ..core import (walk, apath, show, const_of, is_null, last_field, strip_addr, truth_of, AnalysisBroken, same_expr)
 from ..aiolib import *
 from ..locks import lockinfo, LOCK, UNLOCK
@@ -483,6 +484,85 @@ def rule_r4(ctx):
                 check_fn(f, poll, sup, muts, 0, "")
 
 
+
+def rule_r5(ctx):
+    r = ctx.rule("C15.R5", "T1", "a poll descriptor is lowered only on evidence: every nni_pollable_clear of a protocol pollable is "
+                 "dominated by a test of (or a flush of) one of the fields its readiness is defined over -- removing one element "
+                 "from a collection is not evidence that the collection is empty", floor=30)
+    prog = ctx.prog
+    for f in prog.functions:
+        if f.cfg_failed:
+            continue
+        clears = [s for s in f.calls("nni_pollable_clear") if s.node["args"] and last_field(f.expand(s.node["args"][0])) in SUPPORT]
+        if not clears:
+            continue
+        facts = G.edge_facts(f)
+        for s in clears:
+            poll = last_field(f.expand(s.node["args"][0]))
+            sup = SUPPORT[poll]
+            ok = False
+            for bid, k, atom, val in facts:
+                if any(m.get("k") == "mem" and last_field(m) in sup for m in walk(atom)) and G.dominated(f, (s.b, s.i), {bid: k}):
+                    ok = True
+                    break
+            if not ok:
+                for c in f.calls(("nni_lmq_flush",)):
+                    if c.node["args"] and last_field(f.expand(c.node["args"][0])) in sup and \
+                            f.dominated_by((s.b, s.i), blocked=lambda b, i, e, c=c: (b, i) == (c.b, c.i)):
+                        ok = True
+            if ok:
+                r.ob(f, "clear of %s line %s under a test of its support" % (poll, s.line))
+            else:
+                ctx.fail(r, f, "%s cleared without testing what it stands for" % poll, s.line,
+                         "nni_pollable_clear(%s) at line %s is not dominated by any test of %s: with another element still "
+                         "present the descriptor stops polling readable/writable although the operation would succeed"
+                         % (poll, s.line, ", ".join(sorted(sup))))
+
+
+
+def rule_r6(ctx):
+    r = ctx.rule("C15.R6", "T2", "the raw sockets' queue re-evaluates its two poll descriptors whenever it changes: every function of "
+                 "msgqueue.c that takes mq_lock and changes the queue's length, capacity or waiter lists calls "
+                 "nni_msgq_run_notify before it unlocks", floor=8)
+    prog = ctx.prog
+    EXC = {"nni_msgq_close": "the queue is closing: every waiter is failed with NNG_ECLOSED and no operation can succeed any more; "
+                             "the descriptors are torn down with the socket"}
+    n = 0
+    for f in prog.fns_in("core/msgqueue.c"):
+        if f.cfg_failed or not list(f.calls("nni_mtx_lock")):
+            continue
+        muts = []
+        for s in f.sites():
+            nd = s.node
+            if nd.get("k") == "call" and nd.get("fn") in ("nni_aio_list_remove", "nni_aio_list_append", "nni_list_append", "nni_list_remove"):
+                muts.append((s, nd["fn"]))
+            if nd.get("k") == "asg" and nd["lhs"].get("k") == "mem" and nd["lhs"]["f"] in ("mq_len", "mq_cap"):
+                muts.append((s, "store to " + nd["lhs"]["f"]))
+            if nd.get("k") == "un" and nd.get("op") in ("++", "--") and nd["e"].get("k") == "mem" and nd["e"]["f"] == "mq_len":
+                muts.append((s, "mq_len" + nd["op"]))
+        if not muts:
+            continue
+        notif = G.positions(f.calls("nni_msgq_run_notify"))
+        unl = G.positions(f.calls("nni_mtx_unlock"))
+        for s, what in muts:
+            n += 1
+            if f.name in EXC:
+                r.exception(f.name, EXC[f.name])
+                r.ob(f, "excepted")
+                continue
+            if G.must_pass(f, (s.b, s.i + 1), notif, stop=unl | {(f.exit, 0)}):
+                ctx.fail(r, f, "queue changed without nni_msgq_run_notify", s.line,
+                         "%s at line %s changes what mq_sendable / mq_recvable stand for, and the lock is released without "
+                         "nni_msgq_run_notify: the descriptors keep their old state (a poller is not woken although the "
+                         "operation would succeed, or spins although it would not)" % (what, s.line))
+            else:
+                r.ob(f, "%s line %s followed by nni_msgq_run_notify" % (what, s.line))
+    if n < 8:
+        raise AnalysisBroken("only %d queue mutations under mq_lock found" % n)
+
+
 def run(ctx):
     ctx.guard(rule_a6)
     ctx.guard(rule_r4)
+    ctx.guard(rule_r5)
+    ctx.guard(rule_r6)
